@@ -282,6 +282,19 @@ class Inliner:
         body = [s for s in h.body if not (isinstance(s, ast.Expr) and isinstance(s.value, ast.Constant))]
         if len(body) == 1 and isinstance(body[0], ast.Return) and body[0].value is not None:
             return body[0].value
+        # locals bound once to a value without side effects, then `return E`: E with the locals substituted
+        if len(body) > 1 and isinstance(body[-1], ast.Return) and body[-1].value is not None and len(body) <= 6:
+            params = {x.arg for x in h.args.args}
+            binding = {}
+            for st in body[:-1]:
+                if not (isinstance(st, ast.Assign) and len(st.targets) == 1 and isinstance(st.targets[0], ast.Name) and st.targets[0].id not in binding
+                        and st.targets[0].id not in params and _reads_only(st.value)):
+                    return None
+                binding[st.targets[0].id] = _Rename({}, dict(binding)).visit(clone(st.value))
+            # (a comprehension in E must not re-bind one of the locals)
+            if any(isinstance(n, ast.Name) and isinstance(n.ctx, ast.Store) and n.id in binding for n in ast.walk(body[-1].value)):
+                return None
+            return _Rename({}, binding).visit(clone(body[-1].value))
         return None
 
     # -- statement rewriting
@@ -458,6 +471,26 @@ def inline_helpers(func, depth=2, only=None, skip=()):
 
 # ---------------------------------------------------------------------------------------------
 # alias / copy propagation
+
+READ_ONLY_METHODS = {'group', 'groups', 'groupdict', 'strip', 'lstrip', 'rstrip', 'lower', 'upper', 'casefold', 'startswith', 'endswith', 'get', 'keys', 'items',
+                     'values', 'find', 'rfind', 'count', 'isdigit', 'isspace', 'isalpha', 'isalnum', 'split', 'rsplit', 'splitlines', 'partition', 'rpartition',
+                     'start', 'end', 'span', 'decode', 'encode', 'join', 'format', 'replace'}
+
+
+def _reads_only(e):
+    """an expression that only reads: names, attributes, constants, operators, subscripts, the read-only methods of str / Match /
+    mappings and the conversions len / str / int / bool / tuple -- evaluating it twice gives the same value and changes nothing"""
+    for n in ast.walk(e):
+        if isinstance(n, ast.Call):
+            if isinstance(n.func, ast.Attribute) and n.func.attr in READ_ONLY_METHODS:
+                continue
+            if isinstance(n.func, ast.Name) and n.func.id in ('len', 'str', 'int', 'bool', 'tuple', 'isinstance'):
+                continue
+            return False
+        if isinstance(n, (ast.Yield, ast.YieldFrom, ast.Await, ast.NamedExpr, ast.Lambda, ast.ListComp, ast.SetComp, ast.DictComp, ast.GeneratorExp)):
+            return False
+    return True
+
 
 def _pure(e, allow_calls=()):
     """expression without side effects that reads only names, attributes, constants"""
@@ -965,9 +998,11 @@ def unroll_const_loops(fnode, consts=None, limit=8, table_nodes=None):
     return fn
 
 
-def expand_quantifiers(fnode, module=None, limit=16):
+def expand_quantifiers(fnode, module=None, limit=16, table_nodes=None):
     """any(E for x in (a, b, ...)) -> E[x:=a] or E[x:=b] ...;  all(...) -> and.  The iterable may be a literal
-    tuple/list or a module-level name bound to one."""
+    tuple/list, a module-level name bound to one, or a table the resolver table_nodes finds (class level); the target may be a tuple
+    of names over a table of tuples.  Where only its truth is used (the test of an if / while, an operand of and / or / not), a list
+    comprehension `[E for x in TABLE if C]` is `any(C for x in TABLE)`: a list is true exactly when it has an item."""
     fn = clone(fnode)
 
     def elements(it):
@@ -977,21 +1012,71 @@ def expand_quantifiers(fnode, module=None, limit=16):
             node = module.const_nodes.get('', {}).get(it.id)
             if isinstance(node, (ast.Tuple, ast.List)):
                 return node.elts
+        if table_nodes is not None and isinstance(it, (ast.Name, ast.Attribute)):
+            node = table_nodes(norm(it))
+            if isinstance(node, (ast.Tuple, ast.List)):
+                return node.elts
         return None
+
+    def bindings(target, elts):
+        """one substitution per table entry, or None"""
+        if isinstance(target, ast.Name):
+            return [{target.id: e} for e in elts]
+        if isinstance(target, (ast.Tuple, ast.List)) and all(isinstance(x, ast.Name) for x in target.elts) \
+                and all(isinstance(e, (ast.Tuple, ast.List)) and len(e.elts) == len(target.elts) for e in elts):
+            return [dict(zip([x.id for x in target.elts], e.elts)) for e in elts]
+        return None
+
+    def expand(comp, body, op, at):
+        g = comp.generators[0]
+        elts = elements(g.iter)
+        if elts is None or not (0 < len(elts) <= limit) or g.is_async:
+            return None
+        bs = bindings(g.target, elts)
+        if bs is None:
+            return None
+        vals = [_Rename({}, b).visit(clone(body)) for b in bs]
+        if len(vals) == 1:
+            return vals[0]
+        return ast.copy_location(ast.BoolOp(op=op, values=vals), at)
+
+    def truth_of(e):
+        """e in a position where only its truth counts"""
+        if isinstance(e, ast.BoolOp):
+            e.values = [truth_of(v) for v in e.values]
+            return e
+        if isinstance(e, ast.UnaryOp) and isinstance(e.op, ast.Not):
+            e.operand = truth_of(e.operand)
+            return e
+        if isinstance(e, ast.ListComp) and len(e.generators) == 1:
+            ifs = e.generators[0].ifs
+            cond = ast.Constant(value=True) if not ifs else ifs[0] if len(ifs) == 1 else ast.BoolOp(op=ast.And(), values=list(ifs))
+            r = expand(e, cond, ast.Or(), e)
+            if r is not None:
+                return r
+        return e
 
     class Q(ast.NodeTransformer):
         def visit_Call(self, c):
             self.generic_visit(c)
             if isinstance(c.func, ast.Name) and c.func.id in ('any', 'all') and len(c.args) == 1 and not c.keywords \
-                    and isinstance(c.args[0], (ast.GeneratorExp, ast.ListComp)) and len(c.args[0].generators) == 1:
-                g = c.args[0].generators[0]
-                elts = elements(g.iter)
-                if elts is not None and 0 < len(elts) <= limit and isinstance(g.target, ast.Name) and not g.ifs and not g.is_async:
-                    vals = [_Rename({}, {g.target.id: e}).visit(clone(c.args[0].elt)) for e in elts]
-                    if len(vals) == 1:
-                        return vals[0]
-                    return ast.copy_location(ast.BoolOp(op=ast.Or() if c.func.id == 'any' else ast.And(), values=vals), c)
+                    and isinstance(c.args[0], (ast.GeneratorExp, ast.ListComp)) and len(c.args[0].generators) == 1 and not c.args[0].generators[0].ifs:
+                r = expand(c.args[0], c.args[0].elt, ast.Or() if c.func.id == 'any' else ast.And(), c)
+                if r is not None:
+                    return r
             return c
+
+        def visit_If(self, st):
+            st.test = truth_of(st.test)
+            return self.generic_visit(st)
+
+        def visit_While(self, st):
+            st.test = truth_of(st.test)
+            return self.generic_visit(st)
+
+        def visit_IfExp(self, e):
+            e.test = truth_of(e.test)
+            return self.generic_visit(e)
     fn = Q().visit(fn)
     ast.fix_missing_locations(fn)
     return fn
